@@ -47,7 +47,7 @@ type c11Tmpl struct {
 	n    int // plural argument value
 }
 
-var c11Texts = []string{"Hello ", "world", " and ", "<b>", "</b>", "<br/>", "<a href=\"x\">", "</a>", ", ", "!", " you have ", " items", "é ", "x=1 "}
+var c11Texts = []string{"Hello ", "world", " and ", "<b>", "</b>", "<br/>", "<a href=\"x\">", "</a>", "<my-button>", "</my-button>", "<x-foo/>", "<h1>", "<Img/>", "<tBody>", ", ", "!", " you have ", " items", "é ", "x=1 "}
 
 func c11GenItems(r *RNG, nvars int) []c11Item {
 	n := 1 + r.Intn(5)
